@@ -610,3 +610,29 @@ macro_rules! c12_atomic {
 // (not registered, see note) c12_atomic!(c12_atomic_dela_adda, MOp::DelA, MOp::AddA);
 // (not registered, see note) c12_atomic!(c12_atomic_adda_adda, MOp::AddA, MOp::AddA);
 // (not registered, see note) c12_atomic!(c12_atomic_dela_delb, MOp::DelA, MOp::DelB);
+
+// vacuity twin (thorough tier) for the model-file-system families
+#[kani::proof]
+#[kani::unwind(24)]
+#[kani::stub(std::fmt::format, stub_fmt_format)]
+#[kani::stub(alloc::string::ToString::to_string, stub_to_string)]
+#[kani::stub(uuid::Uuid::new_v4, stub_uuid_v4)]
+#[kani::stub(now_ms, stub_now_ms)]
+#[kani::stub(hash_bytes, stub_hash_bytes)]
+#[kani::stub(serde_json::to_vec_pretty, stub_to_vec_pretty)]
+#[kani::stub(std::path::Path::exists, mfs_exists)]
+#[kani::stub(std::fs::read, mfs_read)]
+#[kani::stub(std::fs::write, mfs_write)]
+#[kani::stub(std::fs::create_dir_all, mfs_create_dir_all)]
+fn c14tx_create_twin() {
+    mfs().ws_a_exists = kani::any();
+    mfs().ws_a_content = kani::any();
+    let ws = kani_workspace();
+    let files = [PathBuf::from("/r/a")];
+    let r = ws.create_checkpoint("s", "l", &files);
+    kani::cover!(r.is_ok(), "checkpoint created");
+    core::mem::forget(r);
+    core::mem::forget(files);
+    core::mem::forget(ws);
+    assert!(false, "vacuity-witness");
+}
